@@ -16,3 +16,5 @@ rust_i18n::i18n!("./locales", fallback = "en");
 
 #[cfg(emmyluals_emmylua_analyzer_rust_verif)]
 pub use server::verif_serve;
+#[cfg(emmyluals_emmylua_analyzer_rust_verif)]
+pub use handlers::verif_semantic_push_and_build;
